@@ -4,84 +4,23 @@ import os
 import common as C
 import execpipe as X
 
-
 PROP = "C01"
+RULE = ("seeded type-directed random programs (whole statement/expression grammar, nesting <= 4, <= 8 stanzas) on the "
+        "corpus trees, both modes, each run validated against the TLA+ machine; non-trivial = at least one statement "
+        "executed; distinct by (text, tree, mode, globals, config)")
 
 
 def run(tier):
-    V = C.Verdicts(PROP, tier)
+    run = X.ExecRun(PROP, tier)
     d = C.workdir("c01")
-    n = 150 if tier == "quick" else 3000
-    profile_plan = [("default", n), ("deep", n // 3)]
-    all_cases, all_results = [], {}
-    states = trans = 0
-    for k, (profile, cnt) in enumerate(profile_plan):
+    n = 150 if tier == "quick" else 2500
+    for k, (profile, cnt) in enumerate([("default", n), ("deep", n // 3), ("small", n // 3)]):
         raw = os.path.join(d, "raw_%s.ndjson" % profile)
         C.gen_cases(cnt, C.seed() * 1000 + k, raw, profile)
-        cases, results, stats = X.execute_and_validate("c01_" + profile, raw)
-        all_cases += cases
-        all_results.update(results)
-        states += stats["distinct"]
-        trans += stats["states"]
-    return finish(V, all_cases, all_results, states, trans)
-
-
-def finish(V, cases, results, states, trans):
-    counts = {"agree_ok": 0, "agree_err": 0, "skip": 0, "unsupported": 0, "load_err": 0}
-    validated = 0
-    distinct = set()
-    samples = []
-    for case in cases:
-        res = results.get(case.get("id"))
-        cl = X.classify(case, res)
-        if cl["verdict"] == "violation":
-            V.violation(case["id"], X.replay_payload(PROP, case, res, cl), cl.get("sig"))
-        elif cl["verdict"] == "unsupported":
-            V.unsupported += 1
-            counts["unsupported"] += 1
-        elif cl["verdict"] == "skip":
-            counts["skip"] += 1
-            if cl.get("load_err"):
-                counts["load_err"] += 1
-        else:
-            counts["agree_" + cl["detail"] if cl["detail"] in ("ok", "err") else "agree_ok"] += 1
-        if cl["drift"]:
-            V.note_drift(case["id"], cl["drift"])
-        if res is not None:
-            validated += 1
-            if X.nontrivial(case):
-                distinct.add((case.get("text"), case.get("src"), case.get("mode"), str(case.get("globals"))))
-        if len(samples) < 3 and X.nontrivial(case):
-            samples.append(X.sample_of(case))
-    cov = {
-        "states": states, "transitions": trans, "traces_validated_against_impl": validated,
-        "samples": samples or [X.sample_of(c) for c in cases[:1]],
-        "evaluations": len(cases), "distinct_nontrivial": len(distinct),
-        "rule": "seeded type-directed random programs (whole statement/expression grammar, nesting <= 4, <= 8 stanzas) on the "
-                "corpus trees, both modes; non-trivial = at least one statement executed; distinct by (text, tree, mode, globals)",
-        "outcomes": counts,
-        "exhaustive": False,
-    }
-    return V.finish("model_checking", cov, [
-        "tree-sitter query matching, the python grammar and the regex crate are trusted (their results are inputs of the specification)",
-        "graphs are compared up to renumbering of graph nodes",
-    ])
+        run.add_batch("c01_" + profile, raw)
+    run.classify_all()
+    return run.V.finish("model_checking", run.coverage(RULE), X.TRUSTED)
 
 
 def replay(path):
-    import json
-    with open(path, encoding="utf-8") as f:
-        rp = json.load(f)
-    d = C.workdir("c01_replay")
-    raw = os.path.join(d, "raw.ndjson")
-    C.write_ndjson(raw, [rp["case"]])
-    cases, results, stats = X.execute_and_validate("c01_replay", raw)
-    V = C.Verdicts(PROP, "quick")
-    rc = 0
-    for case in cases:
-        cl = X.classify(case, results.get(case.get("id")))
-        print(cl["verdict"], cl["detail"])
-        if cl["verdict"] == "violation":
-            print("VIOLATION property=%s replay=%s" % (PROP, path))
-            rc = 1
-    return rc
+    return X.replay_generic(PROP, path)
